@@ -1,7 +1,7 @@
 SPECIFICATION Spec
 CONSTANTS
  NK = 2
- NV = 2
+ NV = 1
  BF = 2
  MaxLayer = 1
  NH = 2
